@@ -99,7 +99,11 @@ COMMENTS = ["// c\n", "//\n", "/* c */", "/**/", "/* a\n   b */", "// t   \n", "
             "//! m\n", "/* tail   \n  ws */",
             # block comments over three and more lines, alone and followed by further comments
             "/* l1\n   l2\n   l3 */", "/* m1\n\n\n   m4 */ // after\n", "/* p\n q\n r */\n// next\n",
-            "/* u\n v\n w */\n\n/* second */", "// one\n// two\n", "// one\n\n\n// far\n", "/* b1 */\n/* b2 */\n"]
+            "/* u\n v\n w */\n\n/* second */", "// one\n// two\n", "// one\n\n\n// far\n", "/* b1 */\n/* b2 */\n",
+            # star runs and slashes inside / at the end of block comments (the comment splitter's regex must
+            # agree with the lexer's), comment openers inside comments
+            "/** doc **/", "/* x **/", "/****/", "/***/", "/* a * b ** c */", "/*/ */", "/** d\n * e\n **/",
+            "/* s ***/ /**/", "// a /* b */\n", "/* // not a line comment */", "/*** /* ***/", "//* l\n", "///\n"]
 CLOSERS = set(")]},;")
 OPENERS = set("([{")
 
@@ -253,10 +257,13 @@ def gen_expr(rng, depth, idents):
                             "," if n and rng.random() < 0.5 else "")
     if r < 0.94:
         return "{%s repeat %s}" % (gen_expr(rng, depth - 1, idents), rng.choice(["2", "4", "N"]))
-    if r < 0.97:
+    if r < 0.95:
         return "%s as u32" % rng.choice(idents)
-    return "case %s { %s: %s, default: %s }" % (rng.choice(idents), rng.choice(NUMS), gen_expr(rng, depth - 1, idents),
-                                                gen_expr(rng, depth - 1, idents))
+    if rng.random() < 0.5:
+        return "case %s { %s: %s, default: %s%s }" % (rng.choice(idents), rng.choice(NUMS), gen_expr(rng, depth - 1, idents),
+                                                      gen_expr(rng, depth - 1, idents), rng.choice(["", ","]))
+    return "switch { %s: %s, default: %s%s }" % (gen_expr(rng, depth - 1, idents), gen_expr(rng, depth - 1, idents),
+                                                 gen_expr(rng, depth - 1, idents), rng.choice(["", ","]))
 
 
 def gen_ident(rng, i):
@@ -538,7 +545,38 @@ def _no_ws(t):
     return re.sub(r"\s+", "", t)
 
 
-def judge_layout_only(r):
+def scan_comments(text):
+    """comments of a Veryl source text found WITHOUT the parser: `//` to end of line and `/* ... */`,
+    outside string literals and outside embed bodies `{{{ ... }}}` (whose text is one token).  Used to
+    notice a comment that the parser's own comment stream (split_comment_token) silently drops."""
+    out = []
+    i, n = 0, len(text)
+    while i < n:
+        if text.startswith("{{{", i):
+            j = text.find("}}}", i + 3)
+            i = n if j < 0 else j + 3
+        elif text[i] == '"':
+            i += 1
+            while i < n and text[i] != '"':
+                i += 2 if text[i] == "\\" else 1
+            i += 1
+        elif text.startswith("//", i):
+            j = i
+            while j < n and text[j] not in "\r\n":
+                j += 1
+            out.append(text[i:j])
+            i = j
+        elif text.startswith("/*", i):
+            j = text.find("*/", i + 2)
+            j = n if j < 0 else j + 2
+            out.append(text[i:j])
+            i = j
+        else:
+            i += 1
+    return canon_comments([("c", c, 0, 0) for c in out])
+
+
+def judge_layout_only(r, text=None):
     """C09 oracle on one harness result (needs flags 't' and 's').  Returns list of (key, what)."""
     bad = []
     if failed(r.get("tf")):
@@ -558,6 +596,14 @@ def judge_layout_only(r):
             else:
                 bad.append(("tokens", what))
         ca, cb = canon_comments(tx), canon_comments(tf)
+        if text is not None and ca == cb:
+            # the parser's comment stream itself may have lost a comment (then both streams agree and
+            # the formatter deletes it): compare with the comments scanned from the text independently
+            cs = scan_comments(text)
+            if cs != cb:
+                i = first_diff(cs, cb)
+                bad.append(("comments", "a comment of the source text is missing from the formatted text (and from the "
+                            "parser's comment stream): comment %d in the text %r, formatted %r" % (i, cs[i:i + 1], cb[i:i + 1])))
         if ca != cb:
             i = first_diff(ca, cb)
             bad.append(("comments", "comment sequence changed at comment %d: original %r, formatted %r" % (
